@@ -284,11 +284,14 @@ pub struct XlsbSheet {
     /// the BrtBundleSh carries a NULL relationship id (string length 0xFFFFFFFF) and the sheet has no part and no
     /// relationship: the reader skips such an entry entirely (used by C07)
     pub no_rel: bool,
+    /// zip entry name of the part below `xl/`, also written as the relationship `Target` (`None` =
+    /// `<kind dir>/sheet<n>.bin`)
+    pub part: Option<String>,
 }
 
 impl XlsbSheet {
     pub fn new(name: &str) -> XlsbSheet {
-        XlsbSheet { name: name.into(), state: 0, kind: SheetKind::Work, cells: BTreeMap::new(), dims: None, noise: None, raw: None, no_rel: false }
+        XlsbSheet { name: name.into(), state: 0, kind: SheetKind::Work, cells: BTreeMap::new(), dims: None, noise: None, raw: None, no_rel: false, part: None }
     }
     pub fn set(&mut self, row: u32, col: u32, val: BVal) -> &mut BCell {
         self.cells.insert((row, col), BCell::new(val));
@@ -465,8 +468,12 @@ impl XlsbBook {
         }
     }
     pub fn sheet_path(&self, i: usize) -> String {
-        format!("{}/sheet{}.bin", self.sheets[i].kind.dir(), i + 1)
+        match &self.sheets[i].part {
+            Some(p) => p.clone(),
+            None => format!("{}/sheet{}.bin", self.sheets[i].kind.dir(), i + 1),
+        }
     }
+
     pub fn sheet_part(&self, i: usize) -> Vec<u8> {
         self.sheets[i].part(&self.framing, i as u64 + 1)
     }
